@@ -18,6 +18,11 @@ static const char* OP_NAME[] = {"", "push", "set", "replace", "get", "map_add", 
 #define MAXHIST 64
 
 typedef struct { uint8_t op, i, x, y; } op_t;
+/* index codes: 0..200 are themselves; 201.. are far out-of-range indices chosen so that index * stride wraps to a small value for the
+ * strides a bounds check done in bytes could use (8 = pointer, 16 = pair, 4, 2): base + j with j = 0..2, plus the ends of the range */
+static const uint64_t FAR_BASE[] = {1ull << 32, 1ull << 60, 1ull << 61, 1ull << 62, 1ull << 63, 3ull << 61, 5ull << 61, 7ull << 61, 15ull << 60, (1ull << 63) - 1, UINT64_MAX - 2};
+#define NFAR (3 * (sizeof FAR_BASE / sizeof FAR_BASE[0]))
+static size_t IDX(uint8_t code) { return code <= 200 ? code : (size_t)(FAR_BASE[(code - 201) / 3] + (code - 201) % 3); }
 typedef struct {
   uint8_t n;        /* entries */
   uint8_t e[16];    /* arrays/chunks: item id ; maps: key id * 3 + value id */
@@ -104,7 +109,7 @@ static void compare_state(const char* after) {
 /* apply op to the real container and to the model; judge = compare return value and state */
 static void apply(op_t o, bool judge) {
   char what[96];
-  snprintf(what, sizeof what, "%s(i=%u, x=%u) on %s (cap %u) holding %u", OP_NAME[o.op], o.i, o.x, KIND_NAME[cur_kind], cur_cap, model.n);
+  snprintf(what, sizeof what, "%s(i=%zu, x=%u) on %s (cap %u) holding %u", OP_NAME[o.op], IDX(o.i), o.x, KIND_NAME[cur_kind], cur_cap, model.n);
   uint64_t img = 0, live0 = va.live;
   if (judge) img = va_image_hash();
   bool is_def = cur_kind == CK_DEF_ARRAY || cur_kind == CK_DEF_MAP;
@@ -134,17 +139,17 @@ static void apply(op_t o, bool judge) {
       break;
     case OP_SET:
       want = o.i < model.n || (o.i == model.n && (!is_def || model.n < cur_cap));
-      got = cbor_array_set(cont, o.i, pool[o.x]);
+      got = cbor_array_set(cont, IDX(o.i), pool[o.x]);
       if (want) { if (o.i == model.n) model.n++; model.e[o.i] = o.x; changes = true; }
       break;
     case OP_REPLACE:
       want = o.i < model.n;
-      got = cbor_array_replace(cont, o.i, pool[o.x]);
+      got = cbor_array_replace(cont, IDX(o.i), pool[o.x]);
       if (want) { model.e[o.i] = o.x; changes = true; }
       break;
     case OP_GET: {
       want = o.i < model.n;
-      cbor_item_t* r = cbor_array_get(cont, o.i);
+      cbor_item_t* r = cbor_array_get(cont, IDX(o.i));
       got = r != NULL;
       if (judge) vf_cnt(K_GETS, 1);
       if (r) {
@@ -223,6 +228,11 @@ static void bfs(int kind, unsigned cap) {
       ops[nops++] = (op_t){OP_GET, 200, 0, 0};
       ops[nops++] = (op_t){OP_REPLACE, 200, 1, 0};
       ops[nops++] = (op_t){OP_SET, 200, 1, 0};
+      for (unsigned f = 0; f < NFAR; f++) {
+        ops[nops++] = (op_t){OP_GET, (uint8_t)(201 + f), 0, 0};
+        ops[nops++] = (op_t){OP_REPLACE, (uint8_t)(201 + f), 1, 0};
+        ops[nops++] = (op_t){OP_SET, (uint8_t)(201 + f), 2, 0};
+      }
     } else if (is_map) {
       for (uint8_t x = 0; x < NPOOL; x++)
         for (uint8_t y = 0; y < NPOOL; y++) ops[nops++] = (op_t){OP_MAPADD, 0, x, y};
@@ -273,9 +283,11 @@ static void bfs(int kind, unsigned cap) {
 }
 
 /* growth clause: n insertions into an indefinite container cost O(log n) reallocations; capacity never shrinks */
-static void growth(int kind) {
-  unsigned n = 4096;
-  uint8_t d[4] = {(uint8_t)kind, 0xff, 0, 0};
+static const unsigned GROW_N[] = {4096, 140000, (1u << 20) + 1}; /* the last one in the thorough tier only */
+static void growth(int kind, unsigned ni) {
+  unsigned n = GROW_N[ni];
+  va_cap = 1ull << 27;
+  uint8_t d[4] = {(uint8_t)kind, 0xff, (uint8_t)ni, 0};
   vf_case("growth", d, 4);
   va_reset();
   build_fresh(kind, 0);
@@ -303,7 +315,7 @@ static void growth(int kind) {
   while ((1u << lg) < n) lg++;
   if (re > lg + 2) vf_fail(NULL, "%u insertions into %s cost %" PRIu64 " reallocations (more than log2(n)+2 = %u): growth is not geometric", n, KIND_NAME[kind], re, lg + 2);
   /* contents */
-  for (unsigned i = 0; i < n && i < 4096; i += 97) {
+  for (unsigned i = 0; i < n; i += 97) {
     cbor_item_t* e = kind == CK_INDEF_ARRAY ? cbor_array_handle(cont)[i] : kind == CK_INDEF_MAP ? cbor_map_handle(cont)[i].key : kind == CK_BYTES ? cbor_bytestring_chunks_handle(cont)[i] : cbor_string_chunks_handle(cont)[i];
     if (e != pool[i % 3]) vf_fail(NULL, "entry %u of the grown %s is wrong", i, KIND_NAME[kind]);
   }
@@ -315,9 +327,9 @@ static void unit(uint64_t u) {
   va_cap = 1 << 24;
   if (u < nunits_) { bfs(UNITS[u].kind, UNITS[u].cap); return; }
   static const int GK[] = {CK_INDEF_ARRAY, CK_INDEF_MAP, CK_BYTES, CK_TEXT};
-  growth(GK[u - nunits_]);
+  growth(GK[(u - nunits_) % 4], (unsigned)((u - nunits_) / 4));
 }
-static uint64_t units(void) { return nunits_ + 4; }
+static uint64_t units(void) { return nunits_ + 4 * (vf_tier ? 3 : 2); }
 static void init(void) {
   va_install();
   max_arr = vf_tier ? 8 : 6;
@@ -332,7 +344,7 @@ static void init(void) {
   UNITS[nunits_++] = (struct unitdesc){CK_TEXT, 0};
 }
 static void replay(const char* tag, const uint8_t* d, size_t len) {
-  if (!strcmp(tag, "growth")) { growth(d[0]); return; }
+  if (!strcmp(tag, "growth")) { growth(d[0], len > 2 && d[2] < 3 ? d[2] : 0); return; }
   if (len < 8) return;
   va_cap = 1 << 24;
   va_reset();
@@ -342,7 +354,7 @@ static void replay(const char* tag, const uint8_t* d, size_t len) {
   for (unsigned j = 0; j <= nh && 4 + 4 * (j + 1) <= len; j++) {
     op_t o;
     memcpy(&o, d + 4 + 4 * j, 4);
-    fprintf(stderr, " %s(%u,%u,%u)", OP_NAME[o.op], o.i, o.x, o.y);
+    fprintf(stderr, " %s(%zu,%u,%u)", OP_NAME[o.op], IDX(o.i), o.x, o.y);
     apply(o, j == nh);
   }
   fprintf(stderr, "\n");
@@ -355,12 +367,12 @@ struct vf_check vf_the_check = {
             "indefinite map and chunked byte/text strings, with a pool of 3 distinguishable items; alphabet: push x, set i x, replace i x, get i for every i in 0..size+2 and i = 200, "
             "map_add (k, v), add_chunk c; a state is expanded only while its size is within the bound, every transition out of it is executed on a container rebuilt by replaying "
             "the history that first reached the state. states = distinct (kind, capacity, contents), transitions = real calls judged against the list model; distinct_nontrivial = "
-            "states discovered beyond the empty ones. Growth clause: 4096 insertions per indefinite kind with reallocations counted by the allocator",
+            "states discovered beyond the empty ones. Growth clause: 4096 and 140 000 (thorough: also 2^20+1) insertions per indefinite kind with reallocations counted by the allocator. Out-of-range indices: size+1, size+2, 200 and 33 far indices (2^32, 2^60..2^63, k*2^61, SIZE_MAX-2.. each +0..2: the values at which an index scaled to bytes wraps)",
     .bounds = {"arrays/chunk lists up to 6 entries, maps up to 4 pairs: fixpoint", "arrays/chunk lists up to 8 entries, maps up to 5 pairs: fixpoint"},
     .assumptions = {"contents are compared by item identity through the handle getters; refcounts of the 3 pool items must equal 1 + occurrences",
                     "a refused or read-only operation must leave the byte image of every live block unchanged (this is how 'without touching memory' is observed), and an out-of-range "
                     "access is additionally an ASan report (heap) or a NULL dereference",
-                    "geometric growth is judged by the number of reallocations for 4096 insertions (<= log2(n)+2), not by an exact capacity sequence",
+                    "geometric growth is judged by the number of reallocations for n insertions (<= log2(n)+2), not by an exact capacity sequence",
                     "merging states with equal (kind, capacity, contents) is sound because no operation removes entries: capacity of indefinite containers is a function of the size reached"},
     .counters = {[VC_EVAL] = "transitions_executed", [VC_DISTINCT] = "states_discovered", [VC_TRANS] = "transitions", [VC_TRACES] = "executed_on_implementation",
                  [K_STATES] = "states_expanded", [K_ACCEPTED] = "operations_accepted_by_model", [K_REFUSED] = "operations_refused_by_model", [K_OOR] = "out_of_range_index_operations",
